@@ -303,3 +303,14 @@ def units(prop, tier):
         out.append(pyvc_unit(prop, 'rawapi.smartpointer', glue_registry,
                              [SMARTPTR + '.get', 'spec.modes.lemma_release', 'spec.modes.lemma_del', 'spec.modes.lemma_release_del']))
     return out
+
+
+# ======================================================================================================================
+# Strength check (tools/mut.py):
+#   _raw_api.py   release(): rp = self._raw_pointer  (not cleared)         exit 1 @ spec.modes.lemma_release.ensures.cleared, lemma_release_del.ensures.handed_over  (C17)
+#   _raw_api.py   __del__: self._raw_pointer = None removed                exit 1 @ spec.modes.lemma_del.call_pre.state_is_not_None_..._not_state_g_freed (double free)
+#   _raw_api.py   is_writeable_buffer: isinstance(x, (bytes, bytearray))   exit 1 @ is_writeable_buffer.ensures.value                  (C09)
+#   strxor.py     length check removed                                     exit 1 @ strxor.call_pre.len_in2_n                           (C17)
+#   py3compat.py  bytes branch: return seq[start:]                         exit 1 @ _copy_bytes.ensures.value                           (C19)
+#   py3compat.py  bytearray branch: return seq[start:end]  (no copy)       exit 2: the counter-model (seq = bytearray) is found, but the harness replays it
+#                                                                           with a bytes argument (the witness loses its bytearray type), so it is downgraded
